@@ -696,7 +696,7 @@ func runHistory(cfg *config, id int, r *hx.Rng, o histOpts) {
 // runDeep grows one narrow table far enough for the tree to split an internal node (291 leaves,
 // about 1200 rows), with a second table and the catalog sharing the file, then keeps going
 // through updates, deletes, a flush, a reload and a crash with recovery.
-func runDeep(cfg *config, id int, r *hx.Rng, rows int) {
+func runDeep(cfg *config, id int, r *hx.Rng, rows int, crashes bool) {
 	cfg.tr.Case(id)
 	d := &rdb{cfg: cfg, name: fmt.Sprintf("deep%d", id)}
 	defer d.close()
@@ -726,15 +726,29 @@ func runDeep(cfg *config, id int, r *hx.Rng, rows int) {
 		case 4:
 			d.reopen()
 		case 5:
-			d.crash()
-			if d.recoverDB() != "ok" {
-				return
+			if crashes {
+				d.crash()
+				if d.recoverDB() != "ok" {
+					return
+				}
 			}
+		case 6:
+			d.selectEvery()
 		}
 	}
 	d.selectEvery()
 	d.dump()
 	d.roots()
+	if !crashes {
+		d.reopen()
+		d.stmt(insertText(a, [][]interface{}{{int64(-1)}}, false))
+		d.selectEvery()
+		d.dump()
+		d.roots()
+		cfg.st.Seen("deep", true)
+		cfg.st.Add("statements", total/45)
+		return
+	}
 	d.crash()
 	if d.recoverDB() == "ok" {
 		d.stmt(insertText(a, [][]interface{}{{int64(-1)}}, false))
@@ -746,7 +760,58 @@ func runDeep(cfg *config, id int, r *hx.Rng, rows int) {
 	cfg.st.Add("statements", total/45)
 }
 
+// runLimits (C08 at statement level): values at and around every limit - rows whose encoding is just
+// below, exactly at and just above the 400-byte page-cell limit, INT at the ends of its range, empty
+// strings, NULLs - stored by INSERT and UPDATE, then read back from the cache, after a flush and
+// reload (every page decoded from the file again) and after a crash and recovery.
+func runLimits(cfg *config, id int, r *hx.Rng) {
+	cfg.tr.Case(id)
+	d := &rdb{cfg: cfg, name: fmt.Sprintf("lim%d", id)}
+	defer d.close()
+	d.createdb()
+	a := &gtable{name: "t1", cols: []gcol{{"c0", "int"}, {"c1", "varchar"}}}
+	b := &gtable{name: "t2", cols: []gcol{{"c0", "varchar"}, {"c1", "boolean"}, {"c2", "bigint"}, {"c3", "varchar"}}}
+	d.stmt(createText(a))
+	d.stmt(createText(b))
+	str := func(n int) string {
+		bs := make([]byte, n)
+		for i := range bs {
+			bs[i] = byte('a' + r.Intn(26))
+		}
+		return string(bs)
+	}
+	// a sweep of lengths across the limit: the longest accepted row is exactly at it
+	base := 370 + r.Intn(8)
+	for n := base; n <= base+34; n++ {
+		d.insertv("t1", nil, [][]interface{}{{int64(n), str(n)}})
+	}
+	for n := 170 + r.Intn(5); n <= 200; n += 1 + r.Intn(3) {
+		d.insertv("t2", nil, [][]interface{}{{str(n), n%2 == 0, int64(n) * 1000000007, str(n)}})
+	}
+	d.insertv("t1", nil, [][]interface{}{{int64(2147483647), ""}, {int64(-2147483648), nil}, {nil, str(1)}})
+	d.insertv("t2", nil, [][]interface{}{{"", nil, int64(-9223372036854775807), ""}, {nil, true, nil, nil}})
+	d.selectEvery()
+	// grow stored rows up to the limit by UPDATE
+	for k := 0; k < 6; k++ {
+		d.stmt(fmt.Sprintf("UPDATE t1 SET c1 = '%s' WHERE c0 = %d", str(380+r.Intn(25)), base+r.Intn(10)))
+	}
+	d.stmt("UPDATE t1 SET c1 = '' WHERE c0 = 2147483647")
+	d.selectEvery()
+	d.flush()
+	d.reopen()
+	d.selectEvery()
+	d.dump()
+	d.insertv("t1", nil, [][]interface{}{{int64(7), str(390 + r.Intn(12))}})
+	d.crash()
+	if d.recoverDB() == "ok" {
+		d.selectEvery()
+		d.dump()
+	}
+	cfg.st.Seen(fmt.Sprint(id), true)
+}
+
 func runDB(cfg *config) {
+	cfg.tr.FlushOps = true
 	wdog = hx.NewWatchdog(cfg.tr, 30*time.Second)
 	mode := "c01"
 	if len(cfg.args) > 0 {
@@ -766,10 +831,10 @@ func runDB(cfg *config) {
 		n := 12 * cfg.scale
 		// one history deep enough for an internal-node split (two in the thorough tier)
 		id++
-		runDeep(cfg, id, r.Fork(), 1400)
+		runDeep(cfg, id, r.Fork(), 1400, false)
 		if cfg.tier == "thorough" {
 			id++
-			runDeep(cfg, id, r.Fork(), 2900)
+			runDeep(cfg, id, r.Fork(), 2900, false)
 		}
 		for i := 0; i < n; i++ {
 			id++
@@ -779,6 +844,12 @@ func runDB(cfg *config) {
 				o = histOpts{stmts: 260, maxTables: 12, maxCols: 11, maxRows: 12, pFlush: 5, pReopen: 2, dumpEvery: 60, selectEvery: 40}
 			}
 			runHistory(cfg, id, rr, o)
+		}
+	case "c08":
+		n := 3 * cfg.scale
+		for i := 0; i < n; i++ {
+			id++
+			runLimits(cfg, id, r.Fork())
 		}
 	case "c14":
 		n := 10 * cfg.scale
@@ -806,6 +877,11 @@ func runDB(cfg *config) {
 		}
 	case "c02":
 		n := 12 * cfg.scale
+		if cfg.tier == "thorough" {
+			// a tree deep enough for an internal-node split, with crashes and recoveries on the way
+			id++
+			runDeep(cfg, id, r.Fork(), 1500, true)
+		}
 		for i := 0; i < n; i++ {
 			id++
 			rr := r.Fork()
